@@ -2,7 +2,10 @@
   cpp_models  ops on QuadraticModel / BinaryQuadraticModel through cpp/driver.cpp, every printed state compared with the
               Coq model (Model/ChkC20.v) + native invariant + sanitizers
   cpp_cqm     ops on Expression / Constraint / ConstrainedQuadraticModel: native invariant + sanitizers only
-  py          malformed calls on the real extension in short-lived child interpreters (py_vg: under valgrind)"""
+  py          malformed calls on the real extension in short-lived child interpreters (py_vg: under valgrind)
+  py_dqm      VALID call histories on a real DiscreteQuadraticModel (wrapper or Cython object), the native state
+              (adj_, case_starts_, case-level BQM) after every call compared with Model/DqmNative.v (c20_dqm.py has
+              the clause -> stream coverage map)"""
 import json
 import os
 
@@ -11,6 +14,7 @@ from wlib import clist
 import c20_cpp as K
 import c20_cqm as Q
 import c20_py as P
+import c20_dqm as D
 
 _DRIVER = None
 
@@ -25,12 +29,17 @@ def driver():
 def gen_case(rng, tier):
     r = rng.random()
     thorough = tier != "quick"
-    if r < 0.50:
+    if r < 0.46:
         n = rng.randint(4, 28) if not thorough else rng.randint(4, 60)
         return {"kind": "cpp_models", "ops": K.gen_model_ops(rng, n)}
-    if r < 0.80:
+    if r < 0.73:
         n = rng.randint(4, 30) if not thorough else rng.randint(4, 70)
         return {"kind": "cpp_cqm", "ops": Q.gen_cqm_ops(rng, n)}
+    if r < 0.84:
+        n = rng.randint(3, 24) if not thorough else rng.randint(3, 50)
+        c = D.gen_dqm_ops(rng, n)
+        c["kind"] = "py_dqm"
+        return c
     if thorough and r > 0.9975:
         return {"kind": "py_vg", "calls": P.gen_py_calls(rng, 6)}
     return {"kind": "py", "calls": P.gen_py_calls(rng, 6)}
@@ -184,6 +193,8 @@ def run_case(case):
         return run_cqm(case)
     if k in ("py", "py_vg"):
         return run_py(case)
+    if k == "py_dqm":
+        return D.run_dqm(case)
     return {"py_fail": "harness error: unknown kind " + str(k)}
 
 
